@@ -51,9 +51,13 @@ Init0 == CASE Preset = "mc" -> {Epoch0, [Epoch0 EXCEPT !.auth = "require"]}
 ConnIn(c, offer, tamper) == [op |-> "conn", cl |-> c, offer |-> offer, tamper |-> tamper]
 EpochIn(x) == [op |-> "epoch", sv |-> x]
 
+\* all tamper kinds act alike in the model (Eff # "none"): the quick exhaustive check uses two
+\* representatives per session kind, the thorough one (and the "tamper" generator preset) all of them
+McTampers(k) == IF Thorough THEN TampersFor(k)
+                ELSE TampersFor(k) \cap {"flip-ms0", "foreign", "flip-id0", "cache-evict"}
 OfferChoices == {<<"none", "none">>} \cup
                    (IF saved.kind = "none" THEN {}
-                    ELSE {<<"saved", t>> : t \in {"none"} \cup TampersFor(saved.kind)})
+                    ELSE {<<"saved", t>> : t \in {"none"} \cup McTampers(saved.kind)})
 
 \* inputs enabled at step n (kind of client fixed by the first connection: a session is only
 \* usable by the client implementation that obtained it)
